@@ -240,6 +240,7 @@ class C03Checker(Checker):
     def _check(self, run, cen: dict, tree_nevals: int, where: str):
         self._update(run)
         n_calls = self.n_seen
+        cached = bool(run.sc.get("use_cache"))
         nlev = len(run.sc["levels"])
         deme_sum = sum(c[CEN_NEVALS] for c in cen.values())
         if tree_nevals != deme_sum:
@@ -258,7 +259,8 @@ class C03Checker(Checker):
             self.after_refusal_points += 1
         if not any(exhausted):
             self.checked_points += 1
-            if deme_sum != n_calls:
+            # (with the opt-in cache of FunctionProblem a repeated genome is counted but not re-evaluated)
+            if (deme_sum < n_calls) if cached else (deme_sum != n_calls):
                 self.fail(
                     "total-vs-calls",
                     f"{where}: demes report {deme_sum} evaluations but the objective was invoked {n_calls} times "
@@ -269,7 +271,7 @@ class C03Checker(Checker):
                 continue
             lvl_sum = sum(c[CEN_NEVALS] for c in cen.values() if c[CEN_LEVEL] == lv)
             lvl_calls = self.per_level.get(lv, 0)
-            if lvl_sum != lvl_calls:
+            if (lvl_sum < lvl_calls) if cached else (lvl_sum != lvl_calls):
                 self.fail(
                     "level-vs-calls",
                     f"{where}: level {lv} demes report {lvl_sum} evaluations but its objective was invoked {lvl_calls} times",
@@ -613,6 +615,13 @@ class C07Checker(Checker):
                 if not ok and self.nbc_local and pid in before["finished_now"]:
                     b = before["best"].get(pid)
                     ok = b is not None and np.array_equal(g, b[0]) and f == b[1]
+                    if not ok and (f != f or (b is not None and b[1] != b[1])):
+                        # an objective with NaN values has no defined "best": any individual the finished deme kept will do
+                        dm = next((d for _, d in run.tree.all_demes if d.id == pid), None)
+                        ok = dm is not None and any(
+                            np.array_equal(g, ind.genome) and (f == ind.fitness or (f != f and ind.fitness != ind.fitness))
+                            for me in dm._history for gen in me for ind in gen
+                        )
                 if not ok:
                     self.fail("seed-not-in-parent-population", f"metaepoch {rnd['metaepoch']}: seed {fmt(g)} (fitness {f!r}) returned for parent {pid} is not an individual of its current population")
 
